@@ -341,7 +341,8 @@ func (c *stepCtx) stepEncode(k int, st map[string]interface{}) string {
 		outb = append([]byte{}, buf[:n]...)
 		c.outs[k] = outb
 	}
-	return head + fmt.Sprintf(`"out":"ok","n":%d,"bytes":%s}`, n, jbytes(outb))
+	apok, apleft := apacheSkip(outb)
+	return head + fmt.Sprintf(`"out":"ok","n":%d,"ap_ok":%v,"ap_left":%d,"bytes":%s}`, n, apok, apleft, jbytes(outb))
 }
 
 func (c *stepCtx) stepDecode(k int, st map[string]interface{}) string {
